@@ -185,6 +185,12 @@ def process(ctx, c):
         rec["fails"].append(("from:raises", "expression_from_sympy(%s) raised %s: %s" % (e, type(ex).__name__, str(ex)[:200])))
         return rec
     if n is not None:
+        # ... and once more BETWEEN the conversion and the translation back (the neutral tree is kept while other expressions
+        # over like-named symbols with assumptions are converted): the tree means what it meant when it was made
+        try:
+            expression_from_sympy(_sp.sqrt(_sp.Symbol("x", positive=True) ** 2) + _sp.Symbol("y", negative=True))
+        except Exception:
+            pass
         try:
             b_expr = translate_expression(n, SYMPY_DIALECT)
         except ValueError:
